@@ -394,7 +394,7 @@ theorem updateDenoms_reconciles (ch : String) (hold : Denom → Option Nat) (es 
           · right; exact hk
 
 
-theorem get?_of_mem_nodup {m : ChanMap} (hnd : (m.map (·.1)).Nodup) {e : Key × ChanState} (he : e ∈ m) :
+theorem getElem_of_mem_nodup {m : ChanMap} (hnd : (m.map (·.1)).Nodup) {e : Key × ChanState} (he : e ∈ m) :
     m.get? e.1 = some e.2 := by
   induction m with
   | nil => cases he
@@ -408,7 +408,7 @@ theorem get?_of_mem_nodup {m : ChanMap} (hnd : (m.map (·.1)).Nodup) {e : Key ×
         intro eq; apply hnd.1; rw [eq]; exact List.mem_map_of_mem he
       simp [AMap.get?, hne]; exact ih hnd.2 he
 
-theorem mem_of_get? {m : ChanMap} {k : Key} {v : ChanState} (h : m.get? k = some v) : (k, v) ∈ m := by
+theorem mem_of_getElem {m : ChanMap} {k : Key} {v : ChanState} (h : m.get? k = some v) : (k, v) ∈ m := by
   induction m with
   | nil => simp [AMap.get?] at h
   | cons x rest ih =>
@@ -430,10 +430,10 @@ theorem updateBalances_reconciles {s s' : State} {hold : Denom → Option Nat} {
   rw [hch] at h
   simp at h
   obtain ⟨m, hm, rfl⟩ := h
-  obtain ⟨r1, r2⟩ := updateDenoms_reconciles ch hold s.chan s.chan m hm hnd (fun e he => get?_of_mem_nodup hnd he)
+  obtain ⟨r1, r2⟩ := updateDenoms_reconciles ch hold s.chan s.chan m hm hnd (fun e he => getElem_of_mem_nodup hnd he)
   constructor
   · intro d cs hg
-    exact r1 ((ch, d), cs) (mem_of_get? hg) rfl
+    exact r1 ((ch, d), cs) (mem_of_getElem hg) rfl
   · intro c d hc
     exact r2 (c, d) (Or.inr hc)
 
